@@ -1,5 +1,5 @@
 CONSTANTS
-  MaxDepth = 7
+  MaxDepth = 6
   MaxEpochs = 1
   Inits = {"U", "I", "C", "S", "Z", "N0", "N3", "V0", "V3", "H0", "H3"}
   Per = 2
